@@ -57,7 +57,8 @@ const c09LongDefaultDMap = "c09-default-1h"
 const c09ShortDefaultDMap = "c09-default-300ms"
 
 func c09Cases(kinds []string) []c09Case {
-	forms := []string{"EX", "PX", "EXAT", "PXAT", "DEFAULT", "EXPIRE", "PEXPIRE"}
+	// NX+PX / XX+PXAT: an expiry next to a condition (the options are re-encoded when a request is forwarded)
+	forms := []string{"EX", "PX", "EXAT", "PXAT", "DEFAULT", "EXPIRE", "PEXPIRE", "NX+PX", "XX+PXAT"}
 	observers := []string{"Get", "GetPut", "Incr", "NX", "XX", "Expire"}
 	ttls := []time.Duration{400 * time.Millisecond, 700 * time.Millisecond, 1200 * time.Millisecond}
 	var cs []c09Case
@@ -187,6 +188,15 @@ func (e *c09Env) run(cs c09Case) {
 	case "PXAT":
 		o.PXAT = time.Duration(t0.Add(cs.TTL).UnixMilli()) * time.Millisecond
 		err = set.Put(bg, key, value, o)
+	case "NX+PX":
+		o.NX, o.PX = true, cs.TTL
+		err = set.Put(bg, key, value, o)
+	case "XX+PXAT":
+		if err = sess.Via("EO").Put(bg, key, []byte("5"), paths.PutOpts{}); err == nil {
+			t0 = time.Now()
+			o.XX, o.PXAT = true, time.Duration(t0.Add(cs.TTL).UnixMilli())*time.Millisecond
+			err = set.Put(bg, key, value, o)
+		}
 	case "DEFAULT":
 		err = set.Put(bg, key, value, o)
 	case "EXPIRE", "PEXPIRE":
@@ -213,7 +223,7 @@ func (e *c09Env) run(cs c09Case) {
 		return
 	}
 	lo, hi := t0.Add(cs.TTL).UnixMilli()-2, t1.Add(cs.TTL).UnixMilli()+2
-	if cs.Form == "EXAT" || cs.Form == "PXAT" {
+	if cs.Form == "EXAT" || cs.Form == "PXAT" || cs.Form == "XX+PXAT" {
 		lo, hi = t0.Add(cs.TTL).UnixMilli()-1, t0.Add(cs.TTL).UnixMilli()+1
 	}
 	if ent.TTL < lo || ent.TTL > hi {
